@@ -73,14 +73,15 @@ def lowerType (t : Ty) : Res (Option IrT) :=
       | some true => .ok (some .pointer)
       | some false => .panic
 
-/-- `call_clone_function(from = val+off, to = ret+off, ty)` -/
-def fieldCloneOp (off : Nat) (t : Ty) : Res Op :=
+/-- `call_clone_function(from = val+off, to = ret+off, ty)`; a 0-byte
+    `memcpy` is not emitted -/
+def fieldCloneOps (off : Nat) (t : Ty) : Res (List Op) :=
   if !needsClone t then
     match layoutOf t with
     | none => .panic
-    | some l => .ok (.copy off l.get_size)
-  else if hasRuntimeClone t then .ok (.clone off)
-  else .ok (.callClone off t)
+    | some l => if l.get_size > 0 then .ok [.copy off l.get_size] else .ok []
+  else if hasRuntimeClone t then .ok [.clone off]
+  else .ok [.callClone off t]
 
 def mapVisits (f : Nat → Ty → Res (List Op)) : List Visit → Res (List Op)
   | [] => .ok []
@@ -92,8 +93,7 @@ def mapVisits (f : Nat → Ty → Res (List Op)) : List Visit → Res (List Op)
       | .panic => .panic
       | .ok b => .ok (a ++ b)
 
-def cloneVisitOps (vs : List Visit) : Res (List Op) :=
-  mapVisits (fun off t => match fieldCloneOp off t with | .panic => .panic | .ok o => .ok [o]) vs
+def cloneVisitOps (vs : List Visit) : Res (List Op) := mapVisits fieldCloneOps vs
 
 def cloneVariantsOps : Vars → Res (List Op)
   | .nil => .ok []
